@@ -723,9 +723,6 @@ func (rw *rewriter) atomicCall(c *ast.CallExpr) (name string, results int, ok bo
 		if n := named.Obj().Name(); n != "Map" && n != "Pool" {
 			return
 		}
-		if fn.Name() == "Range" {
-			return
-		}
 	default:
 		return
 	}
